@@ -10,6 +10,7 @@ int xv_fprintf(void);
 #include "env/base.h"
 #include "env/relay_env.h"
 #include "contracts/relay.h"
+#include "_setup.h"
 
 /* a server with its listening socket; the list of live relays is empty or starts with one valid relay (whose successors are
  * not looked at by the functions under proof) */
